@@ -321,6 +321,11 @@ def canon_item(api, it, shift):
     return observe.value(it)
 
 
+# str() of the error of the last delivery: the message a user sees.  It legitimately differs between in-memory input
+# (source name, snippet) and streams, but not between two chunkings of the same stream.
+LAST_ERROR_TEXT = [None]
+
+
 def deliver(yaml, data, d, api, backend, shift):
     """Run one delivery.  Returns (items, err, readlog, stream)."""
     L = loader_class(yaml, backend, d.get('block') if d.get('via') == 'sim' else None)
@@ -334,11 +339,16 @@ def deliver(yaml, data, d, api, backend, shift):
         stream = SimReader(data, d.get('sizes') or (), d.get('then'), log=log)
         src = stream
     items, err = [], None
+    LAST_ERROR_TEXT[0] = None
     try:
         for it in getattr(yaml, api)(src, Loader=L):
             items.append(canon_item(api, it, shift))
     except yaml.YAMLError as exc:
         err = observe.error(exc, shift)
+        try:
+            LAST_ERROR_TEXT[0] = str(exc)
+        except Exception as exc2:
+            LAST_ERROR_TEXT[0] = 'str() failed: %r' % (exc2,)
     except ReadBudgetExceeded as exc:
         err = {'class': 'ReadBudgetExceeded', 'args': [str(exc)]}
     except RecursionError:
@@ -526,12 +536,21 @@ def execute(case):
     if case['mode'] == 'clean':
         ref = None
         fam_ref = {}
+        msg_ref = {}
         for i, d in enumerate(case['deliveries']):
             family = d['form']
             data = encode(text, family)
             shift = 1 if (backend == 'py' and family in ('utf8bom', 'utf16le', 'utf16be')) else 0
             items, err, readlog, _ = deliver(yaml, data, d, api, backend, shift)
             out['evals'] += 1
+            if err is not None and d['via'] in ('sim', 'io') and LAST_ERROR_TEXT[0] is not None:
+                key = family
+                if key in msg_ref and msg_ref[key][0] != LAST_ERROR_TEXT[0] and msg_ref[key][1] == err:
+                    out['violations'].append({'class': 'error-message-depends-on-chunking', 'detail': {
+                        'delivery': i, 'form': d, 'message': LAST_ERROR_TEXT[0][:600], 'other_chunking': msg_ref[key][0][:600]}})
+                    break
+                msg_ref.setdefault(key, (LAST_ERROR_TEXT[0], err))
+                out['probes']['error_messages_compared_across_chunkings'] = out['probes'].get('error_messages_compared_across_chunkings', 0) + 1
             note(d, family, data, readlog)
             logparts.append([i, observe.digest([items, err]), readlog])
             if ref is None:
